@@ -1121,7 +1121,11 @@ func (g *Gen) regMsg(w *World, kind string) MsgSpec {
 					h = 1 + uint64(g.R.Int63n(int64(minU(reg.LastKey, 1<<62))))
 				}
 			case y < 93:
-				h = pick(g.R, []uint64{255, 256, 4294967295, 4294967296, 1 << 63})
+				h = pick(g.R, []uint64{255, 256, 4294967295, 4294967296, 1 << 62, 1 << 63})
+				if reg.LastKey >= 1<<62 && reg.LastKey < ^uint64(0)-(1<<62) && g.pct(60) {
+					// climbing beyond 2^63 in steps that are each smaller than 2^63
+					h = reg.LastKey + 1<<62
+				}
 			case y < 95:
 				h = ^uint64(0)
 			case y < 97:
